@@ -48,8 +48,30 @@ class FitFacts:
         # the enclosing branch
         br = st._parent
         if not isinstance(br, ast.If):
-            raise Undecided("lmfit.minimize is not inside the too-few-points "
-                            "branch")
+            # guard-clause form: `if <too few points>: <failure>; return`
+            # followed by the fit
+            blk = None
+            for fld in ("body", "orelse", "finalbody"):
+                b_ = getattr(br, fld, None)
+                if isinstance(b_, list) and any(x is st for x in b_):
+                    blk = b_
+            guard = None
+            if blk is not None:
+                i = [k for k, x in enumerate(blk) if x is st][0]
+                for x in reversed(blk[:i]):
+                    if isinstance(x, ast.If) and not x.orelse and x.body \
+                            and isinstance(x.body[-1], ast.Return):
+                        guard = x
+                        break
+            if guard is None:
+                raise Undecided("lmfit.minimize is not inside the "
+                                "too-few-points branch")
+            self.branch = guard
+            gi = [k for k, x in enumerate(blk) if x is guard][0]
+            self.success_body = blk[gi + 1:]
+            self.failure_body = guard.body[:-1]
+            self.success_pol = False
+            return
         self.branch = br
         self.success_body = br.body if any(s is st for s in br.body) \
             else br.orelse
@@ -791,14 +813,14 @@ def clause_relative_cp(ctx):
               "the relative-cp passes do not run as absolute fits")
     r0 = [s for s in pre if isinstance(s, ast.Assign)
           and norm(s.targets[0]) == "self.range_x"]
-    zero = bool(r0) and isinstance(r0[-1].value, (ast.List, ast.Tuple)) and \
-        len(r0[-1].value.elts) == 2 and \
-        norm(r0[-1].value.elts[0]) == norm(r0[-1].value.elts[1])
+    v0 = Resolver(L.fn).resolve(r0[-1].value) if r0 else None
+    zero = bool(r0) and isinstance(v0, (ast.List, ast.Tuple)) and \
+        len(v0.elts) == 2 and norm(v0.elts[0]) == norm(v0.elts[1])
     ctx.check(zero, br, "first pass uses the whole segment",
               "the first pass (contact-point estimate) does not use the "
               "whole segment")
     f0 = [c for s in pre for c in ast.walk(s) if isinstance(c, ast.Call)
-          and call_name(c) == "self.fit"]
+          and call_name(c) in ("self.fit", "self._fit")]
     ctx.check(len(f0) >= 1, br, "first pass fitted",
               "no fit before the anchored passes")
     # the loop
@@ -826,7 +848,8 @@ def clause_relative_cp(ctx):
           and call_name(c) == "self.fit"]
     idx_a = lp.body.index(a)
     after = [c for s in lp.body[idx_a + 1:] for c in ast.walk(s)
-             if isinstance(c, ast.Call) and call_name(c) == "self.fit"]
+             if isinstance(c, ast.Call) and call_name(c) in (
+                 "self.fit", "self._fit")]
     ctx.check(len(after) >= 1, lp, "fit after anchoring",
               "the anchored interval of the last pass is never fitted")
     # the passes are not cut short by a tolerance test
@@ -861,7 +884,8 @@ def clause_relative_cp(ctx):
     an = cfg.node_of_stmt(a)
     fit_nodes = [n for n in cfg.nodes if n.kind == "stmt" and any(
         x is n.ast for s in lp.body for x in ast.walk(s)) and any(
-        call_name(c) == "self.fit" for c in fitrules.node_calls(n))]
+        call_name(c) in ("self.fit", "self._fit")
+        for c in fitrules.node_calls(n))]
     reads = {n.id for n in cfg.nodes if n.kind == "stmt" and isinstance(
         n.ast, ast.Assign) and any(x is n.ast for s in lp.body
                                    for x in ast.walk(s))
